@@ -269,7 +269,7 @@ func FuzzCreate(f *testing.F) {
 			os.Setenv("VERIF_REPLAY_DIR", out)
 		}
 		_, hit, _ := c10Check(t, "FuzzCreate", in)
-		if !hit && strings.Count(string(in), "(") <= 5 {
+		if !hit && strings.Count(string(in), "(") <= 4 {
 			// the differential against the reference parser runs the unbudgeted parser
 			c15Check(t, "FuzzCreate", in)
 		}
